@@ -1077,7 +1077,19 @@ def pred_d39(fn: ast.FunctionDef) -> bool:
         isinstance(n, ast.Name) and n.id == "infinite_loop" for n in ast.walk(fn))
 
 
-PREDICATES = {"C01-D24": pred_d24, "C01-D28": pred_d28, "C01-D36": pred_d36}
+def pred_d41(fn: ast.FunctionDef) -> bool:
+    """C01-D41: the function has attribute parameters and every one of them has a default (to_model_proto exports it,
+    leaving references to the attribute parameters in the main graph)."""
+    args = fn.args.args
+    defaults = [None] * (len(args) - len(fn.args.defaults)) + list(fn.args.defaults)
+    attrs = [(a, d) for a, d in zip(args, defaults)
+             if a.annotation is not None and ast.unparse(a.annotation) in ("float", "int", "bool", "str")]
+    return bool(attrs) and all(d is not None for _, d in attrs)
+
+
+PREDICATES = {"C01-D24": pred_d24, "C01-D28": pred_d28, "C01-D36": pred_d36, "C01-D41": pred_d41}
+# a predicate that only explains failures of a particular kind (substring of the failure text)
+FAILURE_FILTER = {"C01-D41": ("model fails", "model differs", "ModelProto", "to_model_proto", "main graph")}
 FIXED_PREDICATES = {"C01-D23": pred_d23, "C01-D25": pred_d25, "C01-D26": pred_d26, "C01-D30": pred_d30,
                     "C01-D27": pred_d27, "C01-D29": pred_d29, "C01-D37": pred_d37, "C01-D39": pred_d39}
 # regions the converter REFUSES since 9b326d7 / 9f69276 / fc696f7 (formerly findings C01-D31 / C01-D33 / C01-D38): the
@@ -1686,3 +1698,98 @@ def shrinking_nest_program(rng, name: str) -> dict:
     src = "@script(default_opset=op)\n" + f"def {name}(A: FLOAT[3], n: INT64):\n" + "".join(f"    {ln}\n" for ln in body)
     return {"name": name, "shape": [3], "params": [["A", "T"], ["n", "I"]], "attrs": [],
             "rets": [[r, "T"] for r in rets], "src": src, "features": ["nested-loop", "inner-trip-count-shrinks"]}
+
+
+# =========================================================================== sibling subgraphs with subscripts
+#
+# The index constants of a subscript live for ONE expression.  If they outlived it (e.g. cached per graph *name* — every
+# loop body is named "loop_body"), a second loop in the same function would read a Constant that exists only in a
+# sibling subgraph.  These programs put subscripts with shared integers (start / end / step / axis) into two or more
+# sibling loop bodies and if branches, next to a top-level subscript.
+
+
+def sibling_subscript_program(rng, name: str) -> dict:
+    forms = ["[0:2]", "[1:3]", "[0:2, 1]", "[1, 0:2]", "[::2]", "[0]", "[1]", "[0:1, 0:2]", "[2:0:-1]", "[1:, 0]"]
+    f = lambda: rng.choice(forms)
+    red = lambda e: f"op.ReduceSum({e}, keepdims=0)"
+    body = ["acc = op.ReduceSum(A, keepdims=0)"]
+    if rng.random() < 0.5:
+        body.append(f"acc = (acc + {red('A' + f())})")
+    nblocks = rng.randint(2, 3)
+    kinds = []
+    for b in range(nblocks):
+        kind = rng.choice(["for", "for", "while", "if"])
+        kinds.append(kind)
+        base = rng.choice(["A", "B"])
+        e1 = red(base + f())
+        shared = f()
+        if kind == "for":
+            body += [f"for i{b} in range({rng.choice(['2', 'n'])}):", f"    acc = (acc + {red(base + shared)})"]
+            if rng.random() < 0.5:
+                body.append(f"    acc = (acc + {e1})")
+        elif kind == "while":
+            c, g = f"cnt{b}", f"go{b}"
+            body += [f"{c} = op.Constant(value_int=0)", f"{g} = ({c} < n)", f"while {g}:",
+                     f"    acc = (acc + {red(base + shared)})", f"    {c} = ({c} + 1)", f"    {g} = ({c} < n)"]
+        else:
+            body += [f"if (acc > {rng.choice(['0.0', '3.0'])}):", f"    acc = (acc + {red(base + shared)})", "else:",
+                     f"    acc = (acc - {e1})"]
+        if rng.random() < 0.6:  # the very same subscript again in the next sibling
+            forms.append(shared)
+    body.append("return acc")
+    src = "@script(default_opset=op)\n" + f"def {name}(A: FLOAT[4,4], B: FLOAT[4,4], n: INT64):\n" + \
+        "".join(f"    {ln}\n" for ln in body)
+    return {"name": name, "shape": [4, 4], "params": [["A", "T"], ["B", "T"], ["n", "I"]], "attrs": [],
+            "rets": [["acc", "S"]], "src": src, "features": ["subscript", "sibling-subgraphs"] + ["sibling-" + k for k in set(kinds)]}
+
+
+# =========================================================================== user names shaped like generated names
+#
+# `_generate_unique_name(candidate)` appends `_<n>` until the name is unused.  Programs whose own variables are
+# called `x_0`, `x_1`, `tmp_0`, `x_cast`, `x_sliced`, `x_start`, `cond_0`, `int64_1_cast`, … next to repeated
+# rebinding of `x`: every value must still be defined exactly once, and the program must keep its meaning.
+
+
+def name_collision_program(rng, name: str, subscripts: bool = False) -> dict:
+    v = rng.choice(["x", "y"])
+    w = "y" if v == "x" else "x"
+    shaped = [f"{v}_0", f"{v}_1", f"{v}_2", "tmp_0", "tmp", f"{v}_cast", "cond_0", "cond", f"{v}_0_0",
+              "return_val", "const", f"{w}_0"]
+    if subscripts:
+        shaped += [f"{v}_sliced", f"{v}_start", f"{v}_end", f"{v}_axis", f"{v}_step", f"{v}_subscripted",
+                   "squeezed_axes", "int64_1_1d", "int64_0_1d", f"{v}_axis_0", "int64_1"]
+    rng.shuffle(shaped)
+    mine = shaped[:rng.randint(2, 4)]
+    defined = []
+    body = []
+    ops = ["op.Neg({a})", "op.Abs({a})", "({a} + 1.0)", "({a} * 2)", "op.Add({a}, {b})", "({a} - {b})", "op.Relu({a})"]
+    subs = ["{a}[0:2]", "{a}[1:3, 1]", "{a}[0, 0:2]", "{a}[::2]", "{a}[0]"]
+
+    def rhs():
+        a = rng.choice([v, v] + defined)
+        b = rng.choice([v, w] + defined)
+        if subscripts and rng.random() < 0.35:
+            return "op.Mul(%s, op.ReduceSum(%s, keepdims=0))" % (v, rng.choice(subs).format(a=a if a in (v, w) else v))
+        return rng.choice(ops).format(a=a, b=b)
+
+    for step in range(rng.randint(4, 8)):
+        r = rng.random()
+        if r < 0.4 and len(defined) < len(mine):
+            t = mine[len(defined)]
+            body.append(f"{t} = {rhs()}")
+            defined.append(t)
+        elif r < 0.8:
+            body.append(f"{v} = {rhs()}")   # the (k+1)-th rebinding of v
+        elif r < 0.9:
+            t = rng.choice(defined) if defined else v
+            body += [f"if (op.ReduceSum({v}, keepdims=0) > 1.0):", f"    {v} = op.Add({v}, {t})", "else:",
+                     f"    {v} = op.Neg({t})"]
+        else:
+            body += ["for i in range(2):", f"    {v} = op.Add({v}, {rng.choice(defined) if defined else w})"]
+    outs = [v] + defined[:2]
+    body.append("return " + ", ".join(f"op.Identity({o})" for o in outs))
+    src = "@script(default_opset=op)\n" + f"def {name}({v}: FLOAT[4,4], {w}: FLOAT[4,4]):\n" + \
+        "".join(f"    {ln}\n" for ln in body)
+    return {"name": name, "shape": [4, 4], "params": [[v, "T"], [w, "T"]], "attrs": [],
+            "rets": [[f"r{k}", "T"] for k in range(len(outs))], "src": src,
+            "features": ["user-names-like-generated"] + (["subscript"] if subscripts else [])}
